@@ -208,22 +208,28 @@ Definition argsel (ps : list param) (args : list val) : list val := map (fun p =
 Definition closed (H : heap) : Prop := forall o ob r, H o = Some ob -> In r (orefs ob) -> H r <> None.
 Definition allocated (H : heap) (vs : list val) : Prop := forall a, In (Some a) vs -> H a <> None.
 
-(* what a call with summary (wr0, wr, esc, sto) may do: the meaning of a summary *)
+(* what a call with summary (wr0, wr, esc, sto) may do: the meaning of a summary.
+   cs_frame: every object of the old heap is unchanged (data AND element list) unless it is an argument listed in wr0 or
+             reachable from an argument listed in wr (stated as a disjunction so that no classical axiom is needed);
+   cs_esc:   the objects allocated by the call that matter are classified (decidably) as NR (reachable from the result) or
+             NS (stored into written objects): NR objects reference only NR objects and what the esc arguments reached,
+             NS objects only NS, NR and what the sto arguments reached; an old object gains only such references; the
+             result is NR or reachable from an esc argument.  Other new objects (garbage) are referenced by none of these. *)
 Definition may_touch (wr0 wr : list param) (H : heap) (args : list val) (o : oid) : Prop :=
   In (Some o) (argsel wr0 args) \/ reach_from H (argsel wr args) o.
 Record callspec (sm : summary) (H : heap) (args : list val) (H' : heap) (r : val) : Prop := {
   cs_dom : forall o, H o <> None -> H' o <> None;
-  cs_frame : forall o, H o <> None -> ~ may_touch (fst (fst (fst sm))) (snd (fst (fst sm))) H args o -> H' o = H o;
+  cs_frame : forall o, H o <> None -> H' o = H o \/ may_touch (fst (fst (fst sm))) (snd (fst (fst sm))) H args o;
   cs_closed : closed H -> allocated H args -> closed H';
-  cs_esc : exists NR NS : oid -> Prop,
+  cs_esc : exists NR NS : oid -> bool,
       let RE := reach_from H (argsel (snd (fst sm)) args) in
       let RS := reach_from H (argsel (snd sm) args) in
-      (forall o, NR o \/ NS o -> H o = None /\ H' o <> None)
-      /\ (forall o ob q, NR o -> H' o = Some ob -> In q (orefs ob) -> NR q \/ RE q)
-      /\ (forall o ob q, NS o -> H' o = Some ob -> In q (orefs ob) -> NS q \/ NR q \/ RS q)
+      (forall o, NR o = true \/ NS o = true -> H o = None /\ H' o <> None)
+      /\ (forall o ob q, NR o = true -> H' o = Some ob -> In q (orefs ob) -> NR q = true \/ RE q)
+      /\ (forall o ob q, NS o = true -> H' o = Some ob -> In q (orefs ob) -> NS q = true \/ NR q = true \/ RS q)
       /\ (forall o ob ob' q, H o = Some ob -> H' o = Some ob' -> In q (orefs ob') ->
-                             In q (orefs ob) \/ NS q \/ NR q \/ RS q)
-      /\ (forall o, r = Some o -> NR o \/ RE o) }.
+                             In q (orefs ob) \/ NS q = true \/ NR q = true \/ RS q)
+      /\ (forall o, r = Some o -> NR o = true \/ RE o) }.
 
 Inductive outcome := ONormal | OReturn (r : val).
 Definition result_of (o : outcome) : val := match o with ONormal => None | OReturn r => r end.
@@ -272,9 +278,12 @@ Section Sem.
   | ex_loop_r b c H rho H1 rho1 r : exec c H rho H1 rho1 (OReturn r) ->
       exec (CLoop b c) H rho H1 rho1 (OReturn r).
 
-  (* running a function: parameter p is variable p *)
+  (* running a function: parameter p is variable p; only the declared parameters are bound (surplus actual arguments
+     raise TypeError in Python), every other variable starts without a value *)
+  Definition store0 (f : fn) (args : list val) : store :=
+    fun x => if Nat.ltb x (List.length (fparams f)) then nth x args None else None.
   Definition run (f : fn) (H : heap) (args : list val) (H' : heap) (r : val) : Prop :=
-    exists rho' out, exec (fbody f) H (fun x => nth x args None) H' rho' out /\ r = result_of out.
+    exists rho' out, exec (fbody f) H (store0 f args) H' rho' out /\ r = result_of out.
 End Sem.
 
 (* the whole program: a call runs the body of the callee (call depth < n) *)
